@@ -170,17 +170,44 @@ class LockModel(object):
         return tuple(sorted(priv(impl, '_ReplLockManagerImpl', 'locks').items()))
 
 
+def _observe_issued_commands():
+    """Harness-level wrapper (observes, never changes): which release commands a client's lock manager issues on its
+    own node - its own release() calls and the clean-up after an acquisition that came too late.  (An instance
+    attribute on the consumer would become snapshot state; commands forwarded by other nodes arrive with a
+    (node, request id) tuple as callback and are not counted.)"""
+    SO = M.so.SyncObj
+    if getattr(SO, '_vsim_c16_wrapped', False):
+        return
+    orig = SO._applyCommand
+
+    def _applyCommand(self, command, callback, *a, **kw):
+        w = CTX.world
+        if w is not None and w.oracle is not None and hasattr(w.oracle, 'release_issued') and not isinstance(callback, tuple):
+            ct = a[0] if a else kw.get('commandType')
+            try:
+                d = w.app.decode(command if ct is None else bytes([ct]) + command)
+            except Exception:
+                d = None
+            if d is not None and d[0] == 'regular' and d[1] == 'release':
+                w.oracle.release_issued.setdefault((w.cur, d[2][0]), []).append(w.wall())
+        return orig(self, command, callback, *a, **kw)
+    SO._applyCommand = _applyCommand
+    SO._vsim_c16_wrapped = True
+
+
 class LockApp(KVApp):
     def __init__(self, cfg):
         KVApp.__init__(self, cfg)
         self.model = LockModel(cfg['unlock'])
         install_batteries_seams()
+        _observe_issued_commands()
 
     def make_consumers(self, world, host):
         lm = M.bt.ReplLockManager(self.cfg['unlock'], selfID='c%d' % host.idx)
         host.extra['lm'] = lm
         host.extra['stopped'] = False
         return [lm]
+
 
     def on_drop(self, world, host, node):
         lm = host.extra.get('lm')
@@ -244,6 +271,7 @@ class LockOracle(RaftOracle):
         self.attempts = {}           # tag -> (client, lock, t0)
         self.last_result = {}        # (client, lock) -> (res, late?, t)
         self.release_time = {}       # (client, lock) -> wall time of its last release() call
+        self.release_issued = {}     # (client, lock) -> wall times at which its manager issued a release command
         self.pending = {}            # (client, lock) -> unanswered tryAcquire calls
         self.overlap = set()         # (client, lock) that had overlapping attempts
         self.cb_wall = {}            # tag -> wall time of the callback
@@ -332,9 +360,38 @@ class LockSched(Scheduler):
         sl = [h for h in w.hosts if h.node is not None and any((not x.done) and w.T >= x.wake_at for x in h.extra.get('sleepers', []))]
         if sl:
             items.append((s.get('w_lm', 2.0), 'lm'))
+        if s.get('w_ackstall', 0) > 0 and self.ackstall is None and self.leader_idx() is not None:
+            items.append((s['w_ackstall'], 'ackstall'))
+
+    ackstall = None
+
+    def next_event(self):
+        # a commit stall that keeps the leadership: what the followers answer is held back for about the auto-unlock
+        # time (heartbeats still arrive, nobody campaigns, the leader's log stays), then everything is delivered
+        st = self.ackstall
+        if st is not None:
+            if st['pending']:
+                return [0.0, 'hold', st['pending'].pop(), 1]
+            if self.w.T >= st['until']:
+                if st['pids']:
+                    return [0.0, 'hold', st['pids'].pop(), 0]
+                self.ackstall = None
+        return Scheduler.next_event(self)
 
     def build_extra(self, k, dt):
         w, rng = self.w, self.rng
+        if k == 'ackstall':
+            L = self.leader_idx()
+            pids = [pid for pid, p in w.net.pipes.items() if p.reader.host == L and not p.dead and not p.held]
+            if not pids:
+                return [dt, 'nop']
+            unlock = w.cfg['unlock']
+            d = min(unlock * rng.choice([0.6, 1.05, 1.3, 2.0]), 0.85 * self.cfg['conf']['connectionTimeout'])
+            self.ackstall = dict(pending=list(pids), pids=list(pids), until=w.T + d)
+            w.probe('ack_stall')
+            if d >= unlock:
+                w.probe('ack_stall_longer_than_auto_unlock')
+            return [dt, 'nop']
         ups = [h.idx for h in w.hosts if h.node is not None and not h.extra.get('stopped')]
         if k in ('lock', 'unlock'):
             c = rng.choice(ups)
@@ -375,6 +432,7 @@ class C16Spec(c01.C01Spec):
         s['w_unlock'] = rng.choice([0.05, 0.2])
         s['w_lm'] = rng.choice([0.5, 2.0, 4.0])
         s['w_lmstop'] = rng.choice([0.0, 0.003, 0.01])
+        s['w_ackstall'] = rng.choice([0.0, 0.01, 0.03])
         s['w_part'] = rng.choice([0.0, 0.004, 0.01])
         s['w_hold'] = rng.choice([0.0, 0.03, 0.08])
         s['w_rst'] = rng.choice([0.0, 0.03])
@@ -453,8 +511,12 @@ class C16Spec(c01.C01Spec):
                     # e.g. the granted attempt was answered LEADER_CHANGED (outcome open): outside the statement
                     w.probe('granted_attempt_reported_unknown_lock_still_prolonged')
                     continue
-                orc.flag('late_acquirer_keeps_lock', 'client c%d was told that its acquisition of lock %r came too late (attempt %r) %.1f s ago but isAcquired() is still True and its prolongation keeps the lock' % (
-                    c, lid, last_grant, w.wall() - t))
+                # did the manager issue its clean-up release when it told the client "too late"?  (If it did and the lock
+                # is still there, the fire-and-forget release was lost: the recorded finding K-C16-late-release-lost.)
+                t_cb = orc.cb_wall.get(last_grant, 0)
+                issued = [x for x in orc.release_issued.get((c, lid), []) if x >= t_cb - 1e-9]
+                orc.flag('late_acquirer_keeps_lock', 'client c%d was told that its acquisition of lock %r came too late (attempt %r) %.1f s ago but isAcquired() is still True and its prolongation keeps the lock (clean-up release commands issued since: %d)' % (
+                    c, lid, last_grant, w.wall() - t, len(issued)), dict(cleanup_release_issued=bool(issued)))
                 return
         # (c) locks whose holder stopped prolonging become obtainable after autoUnlockTime
         live = [h for h in w.hosts if h.node is not None and not h.extra.get('stopped')]
@@ -499,4 +561,7 @@ def match_known(k, viol, events, cfg):
         return False
     if m.get('kind') == 'overlapping_attempts':
         return bool(d.get('overlapping_attempts'))
+    if m.get('kind') == 'cleanup_release_issued_and_lost':
+        # the manager did send its release after telling the client "too late"; it never took effect
+        return bool(d.get('cleanup_release_issued'))
     return True
